@@ -52,6 +52,24 @@ def events(run: dict, rp: dict) -> list[dict]:
     return evs
 
 
+def kind(r, e):
+    exported, reparsed = e["exported"], e["reparsed"]
+    if not reparsed:
+        return "function-not-parsed"
+    from pynguin.utils.naming import get_module_alias  # noqa: PLC0415
+
+    alias = get_module_alias(r["cfg"]["module"]) + "."
+    if [e2e.norm(x).replace(alias, "") for x in exported] == [e2e.norm(x).replace(alias, "") for x in reparsed]:
+        return "sut-name-qualified-with-alias"
+    a = [x for x in exported if x.startswith("assert")]
+    b = [x for x in reparsed if x.startswith("assert")]
+    if len(a) != len(b):
+        return "assertions-lost" if len(b) < len(a) else "assertions-added"
+    if any("pytest.raises" in x for x in exported) != any("pytest.raises" in x for x in reparsed):
+        return "raises-wrapper"
+    return "statement-differs"
+
+
 def run(ctx: Ctx) -> None:
     ctx.level = "other"
     ctx.rule = ("case = exported test function of an end-to-end run, parsed back with parse_seed_module and rendered "
@@ -78,31 +96,21 @@ def run(ctx: Ctx) -> None:
         if not rp.get("ok"):
             ctx.drift.append(f"re-parse failed for {r['cfg']}: {rp.get('error', '')[:200]}")
 
-    def kind(r, e):
-        exported, reparsed = e["exported"], e["reparsed"]
-        if not reparsed:
-            return "function-not-parsed"
-        from pynguin.utils.naming import get_module_alias  # noqa: PLC0415
-
-        alias = get_module_alias(r["cfg"]["module"]) + "."
-        if [e2e.norm(x).replace(alias, "") for x in exported] == [e2e.norm(x).replace(alias, "") for x in reparsed]:
-            return "sut-name-qualified-with-alias"
-        a = [x for x in exported if x.startswith("assert")]
-        b = [x for x in reparsed if x.startswith("assert")]
-        if len(a) != len(b):
-            return "assertions-lost" if len(b) < len(a) else "assertions-added"
-        if any("pytest.raises" in x for x in exported) != any("pytest.raises" in x for x in reparsed):
-            return "raises-wrapper"
-        return "statement-differs"
-
     P.validate(ctx, "C24", {"SeedRoundTrip"}, kept, traces,
                lambda r, e: f"run {r['cfg']}: {e['name']} exported {e['exported']} re-parsed {e['reparsed']} {e['error']}",
                kind=kind, with_strategy=False)
     for t in traces[:2]:
         ctx.sample([{k: e[k] for k in ("name", "exported", "reparsed")} for e in t["ev"][:2]])
+    n_e2e = ctx.evaluations
+    # P2: TLC-enumerated test cases over harness/sut/pp_sut.py (calls, property reads, instances of a
+    # nested class, enum members, a raising call; with and without statement minimisation, which turns
+    # unused bindings into bare expression statements) exported, re-parsed and exported again
+    ctx.evaluations = n_e2e + P.replay_progs(ctx, "C24", {"SeedRoundTrip"}, kind=kind)
 
 
 def replay(ctx: Ctx, rec: dict) -> int:
+    if "replay" in rec["behaviour"]:
+        return P.replay_one(ctx, rec, "C24", {"SeedRoundTrip"})
     r = e2e.run_many([rec["behaviour"]])[0]
     evs = events(r, reparse(r))
     print(json.dumps(evs)[:3000])
